@@ -1,4 +1,5 @@
 //! usim — deterministic simulator with fault injection for umya-spreadsheet.
+mod c11;
 mod c12;
 mod c13;
 #[cfg(umya_verif_sched)]
@@ -46,7 +47,13 @@ struct RunAgg {
 fn main() {
     let args: Vec<String> = std::env::args().collect();
     let cmd = args.get(1).cloned().unwrap_or_default();
-    std::panic::set_hook(Box::new(|_| {}));
+    if std::env::var("USIM_PANIC_TRACE").is_ok() {
+        std::panic::set_hook(Box::new(|i| {
+            eprintln!("PANIC: {}\n{}", i, std::backtrace::Backtrace::force_capture());
+        }));
+    } else {
+        std::panic::set_hook(Box::new(|_| {}));
+    }
     let scratch = arg(&args, "--scratch").unwrap_or_else(|| "/verif/scratch".to_string());
     let _ = std::fs::create_dir_all(&scratch);
     let code = match cmd.as_str() {
